@@ -7,48 +7,6 @@ namespace Sync
 open Wire Chain
 variable {c : Cfg} {ch : PChain} {top h0 : Nat} {evs : List Ev} {n : FNode}
 
-/-- the crash point right after a state write (`UpdateState`) and before the block save that follows it -/
-def afterStateWrite (ws : List SW) (k : Nat) : Bool :=
-  match (ws.take k).getLast? with
-  | some (.updateState _) => true
-  | _ => false
-
-theorem afterStateWrite_shift (w1 w2 w3 : SW) (rest : List SW) (j : Nat)
-    (h : afterStateWrite rest j = true) : afterStateWrite (w1 :: w2 :: w3 :: rest) (j + 3) = true := by
-  unfold afterStateWrite at h ⊢
-  simp only [List.take_succ_cons]
-  cases ht : rest.take j with
-  | nil => rw [ht] at h; simp at h
-  | cons x xs => rw [ht] at h; simpa [List.getLast?_cons_cons] using h
-
-theorem afterStateWrite_shift_eq (w1 w2 : SW) (h : Nat) (rest : List SW) (j : Nat) :
-    afterStateWrite (w1 :: w2 :: .setHeight h :: rest) (j + 3) = afterStateWrite rest j := by
-  unfold afterStateWrite
-  simp only [List.take_succ_cons]
-  cases ht : rest.take j with
-  | nil => simp
-  | cons x xs => simp [List.getLast?_cons_cons]
-
-/-- the excluded crash points of a step are exactly those with `k ≡ 1 (mod 3)` inside the step's writes: one
-block's state written, the block itself not yet -/
-theorem AppliedWrites.afterStateWrite_iff {h h' : Nat} {ws : List SW} (a : AppliedWrites c ch h ws h') (k : Nat) :
-    afterStateWrite ws k = true ↔ k % 3 = 1 ∧ k ≤ ws.length := by
-  induction a generalizing k with
-  | nil =>
-    simp only [afterStateWrite, List.take_nil, List.getLast?_nil, List.length_nil]
-    constructor
-    · intro h; cases h
-    · intro ⟨a, b⟩; omega
-  | @cons h h' ws b sb _ _ a ih =>
-    match k with
-    | 0 => simp [afterStateWrite]
-    | 1 => simp [afterStateWrite]
-    | 2 => simp [afterStateWrite]
-    | j + 3 =>
-      rw [afterStateWrite_shift_eq, ih j]
-      simp only [List.length_cons]
-      omega
-
 /-- a consistent image whose stored height is up to date and equals `h` -/
 structure Settled (c : Cfg) (ch : PChain) (s : Store) (h : Nat) : Prop where
   ok : DiskOK c ch s
@@ -58,19 +16,37 @@ structure Settled (c : Cfg) (ch : PChain) (s : Store) (h : Nat) : Prop where
 theorem Safe.settled (g : GoodChain c ch top) (hs : Safe c ch h0 evs n) : Settled c ch n.store n.store.height :=
   ⟨(hs.diskOK g).1, rfl, (hs.diskOK g).2⟩
 
-/-- image after the state write and the block save of block `h+1`, and after all three writes -/
+/-- a block saved **above** the recorded height (the block of the next height, saved before the state that says
+it was applied; or the local genesis block of `start`) does not disturb a consistent image: the node restarts
+below it and applies that height again -/
+theorem diskOK_saveAbove {d : Store} (hd : DiskOK c ch d) {h : Nat} (hh : recHeight c d < h) (b : Block) :
+    DiskOK c ch (d.apply (.saveBlock h b)) := by
+  have hr : recHeight c (d.apply (.saveBlock h b)) = recHeight c d := rfl
+  refine ⟨by rw [hr]; exact hd.hle, fun s hs => by rw [hr]; exact hd.state s hs, ?_, hd.wm.kv rfl⟩
+  intro k h1 h2
+  rw [hr] at h2
+  rw [getBlock_saveBlock_other _ _ _ _ (by omega)]
+  exact hd.blocks k h1 h2
+
+/-- the three images inside the application of block `h+1`: after the block save (recorded height still `h`,
+the new block sits above it), after the state write (recorded height `h+1`, block `h+1` is there, stored height
+still `h`), and after all three writes -/
 theorem settled_step (g : GoodChain c ch top) {s : Store} {h : Nat} (hs : Settled c ch s h) {b sb : Block}
     (hb : ch (h + 1) = some b) (hsb : SameBlock b sb) :
-    DiskOK c ch ((s.apply (.updateState (stateAt c ch (h + 1)))).apply (.saveBlock (h + 1) sb)) ∧
-    Settled c ch (((s.apply (.updateState (stateAt c ch (h + 1)))).apply (.saveBlock (h + 1) sb)).apply (.setHeight (h + 1)))
+    (DiskOK c ch (s.apply (.saveBlock (h + 1) sb)) ∧ recHeight c (s.apply (.saveBlock (h + 1) sb)) = h) ∧
+    (DiskOK c ch ((s.apply (.saveBlock (h + 1) sb)).apply (.updateState (stateAt c ch (h + 1)))) ∧
+      recHeight c ((s.apply (.saveBlock (h + 1) sb)).apply (.updateState (stateAt c ch (h + 1)))) = h + 1) ∧
+    Settled c ch (((s.apply (.saveBlock (h + 1) sb)).apply (.updateState (stateAt c ch (h + 1)))).apply (.setHeight (h + 1)))
       (h + 1) := by
   have hlh : (stateAt c ch (h + 1)).lastHeight = h + 1 := stateAt_lastHeight g (Or.inr (by simp [hb]))
   have hih : c.initialHeight ≤ h + 1 := (g.dom _ b hb).1
-  generalize hs2 : (s.apply (.updateState (stateAt c ch (h + 1)))).apply (.saveBlock (h + 1) sb) = s2
+  have ok1 : DiskOK c ch (s.apply (.saveBlock (h + 1) sb)) := diskOK_saveAbove hs.ok (by rw [hs.recH]; omega) sb
+  have r1 : recHeight c (s.apply (.saveBlock (h + 1) sb)) = h := hs.recH
+  generalize hs2 : (s.apply (.saveBlock (h + 1) sb)).apply (.updateState (stateAt c ch (h + 1))) = s2
   have s2h : s2.height = h := by rw [← hs2]; exact hs.height
   have s2s : s2.state = some (stateAt c ch (h + 1)) := by rw [← hs2]; rfl
   have s2b : ∀ k, s2.getBlock k = if h + 1 = k then some sb else s.getBlock k := by
-    intro k; rw [← hs2, getBlock_saveBlock]; rfl
+    intro k; rw [← hs2, getBlock_updateState, getBlock_saveBlock]
   have s2r : recHeight c s2 = h + 1 := by unfold recHeight; rw [s2s]; exact hlh
   have blocks : ∀ k, c.initialHeight ≤ k → k ≤ h + 1 → ∃ b' sb', ch k = some b' ∧ s2.getBlock k = some sb' ∧ SameBlock b' sb' := by
     intro k h1 h2
@@ -79,18 +55,19 @@ theorem settled_step (g : GoodChain c ch top) {s : Store} {h : Nat} (hs : Settle
     · subst hk; exact ⟨b, sb, hb, by simp, hsb⟩
     · rw [if_neg hk]
       exact hs.ok.blocks k h1 (by rw [hs.recH]; omega)
+  have s2w : WmOK s2 := hs.ok.wm.kv (by rw [← hs2]; rfl)
   have ok2 : DiskOK c ch s2 := by
-    refine ⟨by rw [s2h, s2r]; omega, ?_, by rw [s2r]; exact blocks⟩
+    refine ⟨by rw [s2h, s2r]; omega, ?_, by rw [s2r]; exact blocks, s2w⟩
     intro st hst
     rw [s2s] at hst; cases hst
     rw [s2r]; exact ⟨rfl, hih⟩
-  refine ⟨ok2, ?_⟩
+  refine ⟨⟨ok1, r1⟩, ⟨ok2, s2r⟩, ?_⟩
   have s3h : (s2.apply (.setHeight (h + 1))).height = h + 1 := by
     rw [height_setHeight, s2h]; simp
   have s3s : (s2.apply (.setHeight (h + 1))).state = s2.state := state_setHeight _ _
   have s3r : recHeight c (s2.apply (.setHeight (h + 1))) = h + 1 := by
     unfold recHeight; rw [s3s, s2s]; exact hlh
-  refine ⟨⟨by rw [s3h, s3r]; exact Nat.le_refl _, ?_, ?_⟩, s3h, s3r⟩
+  refine ⟨⟨by rw [s3h, s3r]; exact Nat.le_refl _, ?_, ?_, s2w.kv (kv_setHeight _ _)⟩, s3h, s3r⟩
   · intro st hst
     rw [s3s, s2s] at hst; cases hst
     rw [s3r]; exact ⟨rfl, hih⟩
@@ -99,25 +76,45 @@ theorem settled_step (g : GoodChain c ch top) {s : Store} {h : Nat} (hs : Settle
     rw [getBlock_setHeight]
     exact blocks k h1 h2
 
-/-- **Every crash point of a step except the one right after a state write leaves a consistent image.** -/
+/-- **Every crash point of a step leaves a consistent image**, and the height it records lies between the chain
+height before the step and the chain height the step was going to reach. -/
 theorem crash_ok (g : GoodChain c ch top) {h h' : Nat} {ws : List SW} (a : AppliedWrites c ch h ws h') :
-    ∀ (s : Store), Settled c ch s h → ∀ k, afterStateWrite ws k = true ∨ DiskOK c ch (s.applyPrefix k ws) := by
+    ∀ (s : Store), Settled c ch s h → ∀ k,
+      DiskOK c ch (s.applyPrefix k ws) ∧ h ≤ recHeight c (s.applyPrefix k ws) ∧ recHeight c (s.applyPrefix k ws) ≤ h' := by
   induction a with
-  | nil => intro s hs k; right; simpa [Store.applyPrefix, Store.applyAll] using hs.ok
+  | nil =>
+    intro s hs k
+    have e : s.applyPrefix k [] = s := by simp [Store.applyPrefix, Store.applyAll]
+    rw [e, hs.recH]; exact ⟨hs.ok, Nat.le_refl _, Nat.le_refl _⟩
   | @cons h h' ws b sb hb hsb a ih =>
     intro s hs k
-    obtain ⟨ok2, set3⟩ := settled_step g hs hb hsb
+    obtain ⟨⟨ok1, r1⟩, ⟨ok2, r2⟩, set3⟩ := settled_step g hs hb hsb
+    have hle := a.le
     match k with
-    | 0 => right; simpa [Store.applyPrefix, Store.applyAll] using hs.ok
-    | 1 => left; rfl
-    | 2 => right; simpa [Store.applyPrefix, Store.applyAll] using ok2
+    | 0 =>
+      have e : s.applyPrefix 0 (.saveBlock (h + 1) sb :: .updateState (stateAt c ch (h + 1)) :: .setHeight (h + 1) :: ws) = s := by
+        simp [Store.applyPrefix, Store.applyAll]
+      rw [e, hs.recH]; exact ⟨hs.ok, Nat.le_refl _, by omega⟩
+    | 1 =>
+      have e : s.applyPrefix 1 (.saveBlock (h + 1) sb :: .updateState (stateAt c ch (h + 1)) :: .setHeight (h + 1) :: ws)
+          = s.apply (.saveBlock (h + 1) sb) := by simp [Store.applyPrefix, Store.applyAll]
+      rw [e, r1]; exact ⟨ok1, Nat.le_refl _, by omega⟩
+    | 2 =>
+      have e : s.applyPrefix 2 (.saveBlock (h + 1) sb :: .updateState (stateAt c ch (h + 1)) :: .setHeight (h + 1) :: ws)
+          = (s.apply (.saveBlock (h + 1) sb)).apply (.updateState (stateAt c ch (h + 1))) := by
+        simp [Store.applyPrefix, Store.applyAll]
+      rw [e, r2]; exact ⟨ok2, by omega, hle⟩
     | j + 3 =>
-      rcases ih _ set3 j with h1 | h1
-      · left; exact afterStateWrite_shift _ _ _ _ _ h1
-      · right; simpa [Store.applyPrefix, Store.applyAll] using h1
+      obtain ⟨i1, i2, i3⟩ := ih _ set3 j
+      have e : s.applyPrefix (j + 3) (.saveBlock (h + 1) sb :: .updateState (stateAt c ch (h + 1)) :: .setHeight (h + 1) :: ws)
+          = (((s.apply (.saveBlock (h + 1) sb)).apply (.updateState (stateAt c ch (h + 1)))).apply (.setHeight (h + 1))).applyPrefix j ws := by
+        simp [Store.applyPrefix, Store.applyAll]
+      rw [e]; exact ⟨i1, by omega, i3⟩
 
 theorem crash_image_ok (g : GoodChain c ch top) (hs : Safe c ch h0 evs n) (e : Ev) (k : Nat) :
-    afterStateWrite (deliver ch n e).2 k = true ∨ DiskOK c ch (n.store.applyPrefix k (deliver ch n e).2) :=
+    DiskOK c ch (n.store.applyPrefix k (deliver ch n e).2) ∧
+    n.store.height ≤ recHeight c (n.store.applyPrefix k (deliver ch n e).2) ∧
+    recHeight c (n.store.applyPrefix k (deliver ch n e).2) ≤ (deliver ch n e).1.store.height :=
   crash_ok g (deliver_safe g hs e).2 _ (hs.settled g) k
 
 /-- **Restart on a consistent image** (empty caches): the node reports the recorded height, its state is the
@@ -137,83 +134,105 @@ theorem diskOK_setHeight {d : Store} (hd : DiskOK c ch d) {h : Nat} (hh : h ≤ 
     DiskOK c ch (d.apply (.setHeight h)) := by
   have hr : recHeight c (d.apply (.setHeight h)) = recHeight c d := by
     unfold recHeight; rw [state_setHeight]
-  refine ⟨?_, ?_, ?_⟩
+  refine ⟨?_, ?_, ?_, hd.wm.kv (kv_setHeight _ _)⟩
   · rw [hr, height_setHeight]; have := hd.hle; split <;> omega
   · intro s hs; rw [state_setHeight] at hs; rw [hr]; exact hd.state s hs
   · intro k h1 h2; rw [hr] at h2; rw [getBlock_setHeight]; exact hd.blocks k h1 h2
 
-theorem diskOK_saveAbove {d : Store} (hd : DiskOK c ch d) {h : Nat} (hh : recHeight c d < h) (b : Block) :
-    DiskOK c ch (d.apply (.saveBlock h b)) := by
-  have hr : recHeight c (d.apply (.saveBlock h b)) = recHeight c d := rfl
-  refine ⟨by rw [hr]; exact hd.hle, fun s hs => by rw [hr]; exact hd.state s hs, ?_⟩
-  intro k h1 h2
-  rw [hr] at h2
-  rw [getBlock_saveBlock_other _ _ _ _ (by omega)]
-  exact hd.blocks k h1 h2
+/-- raising a submission watermark (8 bytes under one of the two keys) touches only the metadata -/
+theorem diskOK_setWm {d : Store} (hd : DiskOK c ch d) (key : String)
+    (hkey : key = Producer.hdrWmKey ∨ key = Producer.dataWmKey) (x : Nat) :
+    DiskOK c ch (d.apply (.setMeta key (le64 x))) :=
+  ⟨hd.hle, hd.state, hd.blocks, wmOK_setWm hd.wm key hkey x⟩
 
-theorem applyAll_take_setHeightW (d : Store) (h j : Nat) :
-    d.applyAll ((setHeightW d h).take j) = d ∨ d.applyAll ((setHeightW d h).take j) = d.apply (.setHeight h) := by
-  unfold setHeightW
-  split
-  · match j with
-    | 0 => left; rfl
-    | j + 1 => right; simp [Store.applyAll]
-  · left; simp [Store.applyAll]
+/-- if every write of a list preserves `P`, every prefix of the list leads to a store satisfying `P` -/
+theorem applyPrefix_preserves {P : Store → Prop} (ws : List SW) (hstep : ∀ d w, P d → w ∈ ws → P (d.apply w)) :
+    ∀ (d : Store), P d → ∀ j, P (d.applyPrefix j ws) := by
+  induction ws with
+  | nil => intro d hd j; simpa [Store.applyPrefix, Store.applyAll] using hd
+  | cons w ws ih =>
+    intro d hd j
+    match j with
+    | 0 => simpa [Store.applyPrefix, Store.applyAll] using hd
+    | j + 1 =>
+      have := ih (fun d' w' h1 h2 => hstep d' w' h1 (List.mem_cons_of_mem _ h2)) (d.apply w)
+        (hstep d w hd (List.mem_cons_self ..)) j
+      simpa [Store.applyPrefix, Store.applyAll] using this
+
+theorem mem_setHeightW {d : Store} {h : Nat} {w : SW} (hw : w ∈ setHeightW d h) : w = .setHeight h := by
+  unfold setHeightW at hw
+  split at hw
+  · simpa using hw
+  · simp at hw
+
+theorem mem_wmW {key : String} {x : Nat} {w : SW} (hw : w ∈ wmW c key x) : w = .setMeta key (le64 (c.initialHeight - 1)) := by
+  unfold wmW at hw
+  split at hw
+  · simpa using hw
+  · simp at hw
 
 /-- **A crash during `Sync.start` itself** (between its own writes: local genesis block, raising the chain
-height) leaves a consistent image again. -/
+height, raising the two submission watermarks) leaves a consistent image again. -/
 theorem start_crash_ok (g : GoodChain c ch top) {d : Store} (hd : DiskOK c ch d) (caches : FNode) :
     ∃ n ws, start c d caches = some (n, ws) ∧ ∀ j, DiskOK c ch (d.applyPrefix j ws) := by
   have hpos := g.ihPos
+  obtain ⟨n, ws, hstart, _⟩ := start_spec g hd caches
+  refine ⟨n, ws, hstart, ?_⟩
   cases hst : d.state with
   | none =>
-    have hr : recHeight c d = c.initialHeight - 1 := by simp [recHeight, hst]
-    have ok1 := diskOK_saveAbove hd (h := c.initialHeight) (by omega) (genesisBlock c)
-    generalize hd1 : d.apply (.saveBlock c.initialHeight (genesisBlock c)) = d1 at ok1
-    have hr1 : recHeight c d1 = c.initialHeight - 1 := by rw [← hd1]; exact hr
-    refine ⟨{ caches with store := d1.applyAll (setHeightW d1 (c.initialHeight - 1)), lastState := genesisState c, alive := true },
-            [.saveBlock c.initialHeight (genesisBlock c)] ++ setHeightW d1 (c.initialHeight - 1), ?_, ?_⟩
-    · unfold start
-      simp only [hst, hd1]
-      rfl
-    · intro j
-      match j with
-      | 0 => simpa [Store.applyPrefix, Store.applyAll] using hd
-      | j + 1 =>
-        have e : d.applyPrefix (j + 1) ([.saveBlock c.initialHeight (genesisBlock c)] ++ setHeightW d1 (c.initialHeight - 1))
-            = d1.applyAll ((setHeightW d1 (c.initialHeight - 1)).take j) := by
-          simp [Store.applyPrefix, Store.applyAll, hd1]
-        rw [e]
-        rcases applyAll_take_setHeightW d1 (c.initialHeight - 1) j with h | h
-        · rw [h]; exact ok1
-        · rw [h]; exact diskOK_setHeight ok1 (by omega)
+    have hr : ∀ d' : Store, d'.state = none → recHeight c d' = c.initialHeight - 1 := by
+      intro d' h; simp [recHeight, h]
+    rw [start_none c d caches hst] at hstart
+    obtain ⟨_, _, _, a4⟩ := applyAll_setHeightW (d.apply (.saveBlock c.initialHeight (genesisBlock c))) (c.initialHeight - 1)
+    obtain ⟨hw, dw, d4, e, _⟩ := finishStart_spec c caches (genesisState c)
+      ([.saveBlock c.initialHeight (genesisBlock c)] ++
+        setHeightW (d.apply (.saveBlock c.initialHeight (genesisBlock c))) (c.initialHeight - 1))
+      ((hd.wm.kv (d' := d.apply (.saveBlock c.initialHeight (genesisBlock c))) rfl).kv a4)
+    rw [e] at hstart
+    simp only [Option.some.injEq, Prod.mk.injEq] at hstart
+    rw [← hstart.2]
+    intro j
+    refine (applyPrefix_preserves (P := fun d' => DiskOK c ch d' ∧ d'.state = none) _ ?_ d ⟨hd, hst⟩ j).1
+    intro d' w ⟨hd', hs'⟩ hw
+    simp only [List.mem_append, List.mem_singleton] at hw
+    rcases hw with ((rfl | hw) | hw) | hw
+    · exact ⟨diskOK_saveAbove hd' (by rw [hr d' hs']; omega) _, hs'⟩
+    · rw [mem_setHeightW hw]
+      exact ⟨diskOK_setHeight hd' (by rw [hr d' hs']; exact Nat.le_refl _), by rw [state_setHeight]; exact hs'⟩
+    · rw [mem_wmW hw]; exact ⟨diskOK_setWm hd' _ (Or.inl rfl) _, hs'⟩
+    · rw [mem_wmW hw]; exact ⟨diskOK_setWm hd' _ (Or.inr rfl) _, hs'⟩
   | some s =>
-    have hr : recHeight c d = s.lastHeight := by simp [recHeight, hst]
     obtain ⟨_, hs2⟩ := hd.state s hst
-    refine ⟨{ caches with store := d.applyAll (setHeightW d s.lastHeight), lastState := s, alive := true },
-            [] ++ setHeightW d s.lastHeight, ?_, ?_⟩
-    · unfold start
-      simp only [hst]
-      rw [if_neg (by omega)]
-    · intro j
-      simp only [List.nil_append, Store.applyPrefix]
-      rcases applyAll_take_setHeightW d s.lastHeight j with h | h
-      · rw [h]; exact hd
-      · rw [h]; exact diskOK_setHeight hd (by omega)
+    have hr : ∀ d' : Store, d'.state = some s → recHeight c d' = s.lastHeight := by
+      intro d' h; simp [recHeight, h]
+    rw [hr d hst] at hs2
+    rw [start_some c d caches hst hs2] at hstart
+    obtain ⟨_, _, _, a4⟩ := applyAll_setHeightW d s.lastHeight
+    obtain ⟨hw, dw, d4, e, _⟩ := finishStart_spec c caches s ([] ++ setHeightW d s.lastHeight) (hd.wm.kv a4)
+    rw [e] at hstart
+    simp only [Option.some.injEq, Prod.mk.injEq] at hstart
+    rw [← hstart.2]
+    intro j
+    refine (applyPrefix_preserves (P := fun d' => DiskOK c ch d' ∧ d'.state = some s) _ ?_ d ⟨hd, hst⟩ j).1
+    intro d' w ⟨hd', hs'⟩ hw
+    simp only [List.nil_append, List.mem_append] at hw
+    rcases hw with (hw | hw) | hw
+    · rw [mem_setHeightW hw]
+      exact ⟨diskOK_setHeight hd' (by rw [hr d' hs']; exact Nat.le_refl _), by rw [state_setHeight]; exact hs'⟩
+    · rw [mem_wmW hw]; exact ⟨diskOK_setWm hd' _ (Or.inl rfl) _, hs'⟩
+    · rw [mem_wmW hw]; exact ⟨diskOK_setWm hd' _ (Or.inr rfl) _, hs'⟩
 
 
 /-! ## any number of crashes and restarts -/
 
-/-- nodes reachable from a fresh start by genuine events, clean restarts, crashes at any write boundary of
-any step other than the excluded one, each followed by a restart on the image with empty caches, and (`image`)
-a start on any consistent image — in particular on the image left by a crash *during* an earlier start
-(`start_crash_ok`) -/
+/-- nodes reachable from a fresh start by genuine events, clean restarts, crashes at **any** write boundary of
+any step, each followed by a restart on the image with empty caches, and (`image`) a start on any consistent
+image — in particular on the image left by a crash *during* an earlier start (`start_crash_ok`) -/
 inductive Reach (c : Cfg) (ch : PChain) : FNode → Prop
   | fresh : Reach c ch (fresh c)
   | ev {n : FNode} (e : Ev) : Reach c ch n → Reach c ch (deliver ch n e).1
   | restart {n : FNode} : Reach c ch n → Reach c ch (restart c n)
   | crash {n n' : FNode} {ws : List SW} (e : Ev) (k : Nat) : Reach c ch n →
-      afterStateWrite (deliver ch n e).2 k = false →
       start c (n.store.applyPrefix k (deliver ch n e).2) = some (n', ws) → Reach c ch n'
   | image {n : FNode} {d : Store} {ws : List SW} : DiskOK c ch d → start c d = some (n, ws) → Reach c ch n
 
@@ -223,26 +242,24 @@ theorem Inv.rebase (hi : Inv c ch h0 evs n) : Inv c ch n.store.height evs n :=
 theorem Safe.rebase (hs : Safe c ch h0 evs n) : Safe c ch n.store.height evs n :=
   { hs with ge := Nat.le_refl _, sound := fun k a b => by omega }
 
-/-- a crash never blocks the restart: `start` succeeds on every image covered by `crash_image_ok` -/
-theorem crash_restarts (g : GoodChain c ch top) (hs : Safe c ch h0 evs n) (e : Ev) (k : Nat)
-    (hk : afterStateWrite (deliver ch n e).2 k = false) :
+/-- a crash never blocks the restart: `start` succeeds on the image of every crash point -/
+theorem crash_restarts (g : GoodChain c ch top) (hs : Safe c ch h0 evs n) (e : Ev) (k : Nat) :
     ∃ n' ws, start c (n.store.applyPrefix k (deliver ch n e).2) = some (n', ws) ∧
       DiskOK c ch (n.store.applyPrefix k (deliver ch n e).2) ∧
       n'.store.height = recHeight c (n.store.applyPrefix k (deliver ch n e).2) ∧
       n'.lastState.lastHeight = n'.store.height ∧ Inv c ch n'.store.height [] n' := by
-  rcases crash_image_ok g hs e k with h | h
-  · rw [hk] at h; cases h
-  · obtain ⟨n', ws, a1, a2, a3, a4⟩ := diskOK_start g h
-    exact ⟨n', ws, a1, h, a2, a3, a4⟩
+  have h := (crash_image_ok g hs e k).1
+  obtain ⟨n', ws, a1, a2, a3, a4⟩ := diskOK_start g h
+  exact ⟨n', ws, a1, h, a2, a3, a4⟩
 
 theorem reach_safe (g : GoodChain c ch top) {n : FNode} (r : Reach c ch n) : ∃ evs, Safe c ch n.store.height evs n := by
   induction r with
   | fresh => exact ⟨[], (fresh_safe g).rebase⟩
   | ev e _ ih => obtain ⟨evs, hs⟩ := ih; exact ⟨_, (deliver_safe g hs e).1.rebase⟩
   | restart _ ih => obtain ⟨evs, hs⟩ := ih; exact ⟨evs, (restart_spec g hs).2.2.2.2.2.2.2.2.2.rebase⟩
-  | crash e k _ hk hst ih =>
+  | crash e k _ hst ih =>
     obtain ⟨evs, hs⟩ := ih
-    obtain ⟨n', ws, a1, _, _, _, a4⟩ := crash_restarts g hs e k hk
+    obtain ⟨n', ws, a1, _, _, _, a4⟩ := crash_restarts g hs e k
     rw [a1] at hst; cases hst
     exact ⟨[], a4.safe⟩
   | image hd hst =>
@@ -256,9 +273,9 @@ theorem reach_inv (g : GoodChain c ch top) (dc : DistinctCommitments ch) {n : FN
   | fresh => exact ⟨[], (fresh_inv g).rebase⟩
   | ev e _ ih => obtain ⟨evs, hi⟩ := ih; exact ⟨_, (deliver_inv g dc hi e).rebase⟩
   | restart _ ih => obtain ⟨evs, hi⟩ := ih; exact ⟨evs, (restart_inv g hi).rebase⟩
-  | crash e k _ hk hst ih =>
+  | crash e k _ hst ih =>
     obtain ⟨evs, hi⟩ := ih
-    obtain ⟨n', ws, a1, _, _, _, a4⟩ := crash_restarts g hi.safe e k hk
+    obtain ⟨n', ws, a1, _, _, _, a4⟩ := crash_restarts g hi.safe e k
     rw [a1] at hst; cases hst
     exact ⟨[], a4⟩
   | image hd hst =>
